@@ -12,18 +12,34 @@ namespace TrieHeap
 open Trie TrieCodec
 
 /-- `N` is the codec node of the trie `t`; everything below it that does not travel inside its
-    parent's encoding is in the database -/
-def Sto (H : Bytes → Bytes) (db : DB) : Trie → Node → Prop
+    parent's encoding is held by `G` (`G k v`: the store maps the key `k` to `v`) -/
+def StoG (H : Bytes → Bytes) (G : Bytes → Bytes → Prop) : Trie → Node → Prop
   | .nil, n => n = .empty
   | .leaf pk v, n =>
     ∃ pkb hashed, n = .leaf pkb (some v) hashed ∧ pkb.map toNib = pk ∧
-      (hashed = true → dbGet db (pkb ++ H v) = some v)
+      (hashed = true → G (pkb ++ H v) v)
   | .branch pk v cs, n =>
     ∃ pkb hashed kids, n = .branch pkb v hashed kids ∧ pkb.map toNib = pk ∧
-      (hashed = true → ∀ x, v = some x → dbGet db (pkb ++ H x) = some x) ∧
-      ∀ i : Nib, Sto H db (cs i) ((kids[i.val]?).getD .empty) ∧
+      (hashed = true → ∀ x, v = some x → G (pkb ++ H x) x) ∧
+      ∀ i : Nib, StoG H G (cs i) ((kids[i.val]?).getD .empty) ∧
         (cs i ≠ .nil → 32 ≤ (encode H ((kids[i.val]?).getD .empty)).length →
-          dbGet db (H (encode H ((kids[i.val]?).getD .empty))) = some (encode H ((kids[i.val]?).getD .empty)))
+          G (H (encode H ((kids[i.val]?).getD .empty))) (encode H ((kids[i.val]?).getD .empty)))
+
+/-- the store may grow -/
+theorem StoG.mono {H : Bytes → Bytes} {G G' : Bytes → Bytes → Prop} (h : ∀ k v, G k v → G' k v) :
+    ∀ (t : Trie) (N : Node), StoG H G t N → StoG H G' t N
+  | .nil, _, hs => hs
+  | .leaf _ _, _, hs => by
+    obtain ⟨pkb, hashed, h1, h2, h3⟩ := hs
+    exact ⟨pkb, hashed, h1, h2, fun hh => h _ _ (h3 hh)⟩
+  | .branch _ _ cs, _, hs => by
+    obtain ⟨pkb, hashed, kids, h1, h2, h3, h4⟩ := hs
+    exact ⟨pkb, hashed, kids, h1, h2, fun hh x hx => h _ _ (h3 hh x hx),
+      fun i => ⟨StoG.mono h (cs i) _ (h4 i).1, fun a b => h _ _ ((h4 i).2 a b)⟩⟩
+
+/-- the database holds the trie: `StoG` with `db.Get` -/
+abbrev Sto (H : Bytes → Bytes) (db : DB) : Trie → Node → Prop :=
+  StoG H (fun k v => dbGet db k = some v)
 
 /-- the decoded form of one child slot -/
 def viewKid (H : Bytes → Bytes) : Node → Node
